@@ -18,18 +18,6 @@ import numba as nb
 
 
 @nb.njit(cache=True)
-def arr_comb(n, k):
-    n = np.where((n < 0) | (n < k), 0, n)
-    prod = np.ones(n.shape, dtype=np.int64)
-
-    for i in range(k):
-        prod *= n - i
-        prod = prod // (i + 1)
-
-    return prod
-
-
-@nb.njit(cache=True)
 def comb(n, k):
     if n < 0 or k < 0 or n < k:
         return 0
@@ -43,6 +31,21 @@ def comb(n, k):
         prod //= i + 1
 
     return prod
+
+
+@nb.njit(cache=True)
+def arr_comb(n, k):
+    # NOTE: The elementwise `comb` uses the symmetry of the binomial coefficients, which
+    # keeps the intermediate products within 64 bits whenever the result fits.
+    result = np.empty(n.shape, dtype=np.int64)
+
+    flat_n = n.ravel()
+    flat_result = result.ravel()
+
+    for idx in range(flat_n.size):
+        flat_result[idx] = comb(flat_n[idx], k)
+
+    return result
 
 
 @nb.njit(cache=True)
